@@ -11,7 +11,7 @@ ID = "C14"
 PROPS = ["Invoke/Props/C14.lean"]
 TARGETS = ["drv_runner"]
 DRIVER_ROOTS = ["Driver/Runner.lean"]
-GENERATED = []
+GENERATED = ["RunnerState"]
 RULE = ("(i) gated schedules of the real Runner threads with a gated Timer (expiry, kill and timer completion are schedule "
         "events) in every order against process exit, reads, joins, the timed_out test and stop(), compared step-for-step "
         "with the Lean transition system; (ii) timeout sources kwarg / config / -T through the real Context and Program; "
@@ -167,14 +167,14 @@ def source_case(case):
                 os.environ["INVOKE_TIMEOUTS_COMMAND"] = "9"
             p = Program(namespace=Collection(t))
             try:
-                p.run(argv + case.get("argv", []) + ["t"], exit=False)
+                p.run(argv + case.get("argv", []) + ["t"] + case.get("post", []), exit=False)
             except SystemExit:
                 pass
         finally:
             os.environ.clear()
             os.environ.update(old_env)
             shutil.rmtree(d, ignore_errors=True)
-        want = 5 if case.get("argv") else 9
+        want = 5 if case.get("argv") or case.get("post") else 9
     else:  # CLI flag
         @task
         def t(c):
@@ -182,7 +182,8 @@ def source_case(case):
             c.run("x", hide=True, in_stream=False)
         p = Program(namespace=Collection(t))
         try:
-            p.run(["inv"] + case["argv"] + ["t"], exit=False)
+            # the option may also follow the task name (a core option inside a task's argument list, C18)
+            p.run(["inv"] + case["argv"] + ["t"] + case.get("post", []), exit=False)
         except SystemExit:
             pass
         want = 5
@@ -284,10 +285,12 @@ def reuse_real_case(case):
     from invoke import Context, Config, Local
     from invoke.exceptions import CommandTimedOut
     r = Local(Context(Config()))
-    for i, (cmd, timeout, overrun) in enumerate(case["runs"]):
-        t0 = time.time()
+    for i, run in enumerate(case["runs"]):
+        cmd, timeout, overrun = run[:3]
+        pty = run[3] if len(run) > 3 else case["pty"]  # per-run pty: what a pty run leaves on the object must not
+        t0 = time.time()                                # matter to a later run without one, and vice versa
         try:
-            res = r.run(cmd, hide=True, in_stream=False, timeout=timeout, pty=case["pty"])
+            res = r.run(cmd, hide=True, in_stream=False, timeout=timeout, pty=pty)
         except CommandTimedOut:
             dt = time.time() - t0
             if not overrun:
@@ -427,6 +430,9 @@ def run(ctx):
     extra = [{"src": "kwarg"}, {"src": "kwarg0"}, {"src": "config"}, {"src": "none"}, {"src": "cli", "argv": ["-T", "5"]},
              {"src": "cli", "argv": ["--command-timeout=5"]}, {"src": "cli", "argv": ["-T5"]},
              {"src": "file"}, {"src": "envvar"}, {"src": "file", "argv": ["-T", "5"]}, {"src": "envvar", "argv": ["-T5"]},
+             {"src": "cli", "argv": [], "post": ["-T", "5"]}, {"src": "cli", "argv": [], "post": ["-T5"]},
+             {"src": "cli", "argv": [], "post": ["--command-timeout=5"]}, {"src": "cli", "argv": [], "post": ["--command-timeout", "5"]},
+             {"src": "cli", "argv": ["-e"], "post": ["-T=5"]}, {"src": "file", "post": ["-T", "5"]}, {"src": "envvar", "post": ["-T5"]},
              {"reuse": True, "rc": 0}, {"reuse": True, "rc": 2}]
     for pty in (False, True):
         for cmd in ("exit 3", "true"):
@@ -436,7 +442,13 @@ def run(ctx):
         extra.append({"reuse_real": True, "pty": pty, "runs": [["true", 5, False], ["sleep 2", 0.3, True], ["echo fine", 5, False]]})
         extra.append({"reuse_real": True, "pty": pty, "runs": [["sleep 2", 0.3, True], ["sleep 2", 0.3, True], ["true", 5, False]]})
         extra.append({"reuse_real": True, "pty": pty, "runs": [["sleep 2", 0.3, True], ["echo second", None, False], ["true", None, False]]})
-    extra += []
+    # mixed histories: pty and plain runs on ONE runner object, the overrunning run at every position
+    mixes = [[True, False], [False, True], [True, False, False], [False, True, False], [True, True, False], [False, False, True]]
+    for mix in mixes:
+        for over in range(len(mix)):
+            runs = [(["sleep 2", 0.3, True, p] if i == over else [rng.choice(["true", "echo fine"]), rng.choice([5, None]), False, p])
+                    for i, p in enumerate(mix)]
+            extra.append({"reuse_real": True, "pty": None, "runs": runs})
     for pty in (False, True):
         for warn in (False, True):
             extra.append({"real": "sleep", "cmd": "sleep 5", "pty": pty, "warn": warn})
